@@ -118,6 +118,10 @@ class World(object):
             return pa
         P_in = lattice(B, origin, -(np.arange(ni) + 0.5) * dx, dim, width, dx)
         P_fl = lattice(B, origin, (np.arange(nf) + 0.5) * dx, dim, width, dx)
+        self.empty_start = bool(rng.random() < 0.2)
+        if self.empty_start:
+            # a channel that is filled through the inlet
+            P_fl = P_fl[:0]
         P_out = lattice(B, self.r_out, (np.arange(no) + 0.5) * dx, dim, width,
                         dx)
         self.inlet = make('inlet', P_in)
@@ -533,6 +537,9 @@ def run_history(seed, k, mon):
         dt = 0.9 * min(W.L_in, W.L_out) / (1.6 * W.U)
     desc['rows_per_step'] = dt * W.U / W.dx
     mon['histories'] = mon.get('histories', 0) + 1
+    if W.empty_start:
+        desc['empty_start'] = True
+        mon['empty_start_histories'] = mon.get('empty_start_histories', 0) + 1
     for step in range(nsteps):
         W.move(dt)
         W.t += dt
